@@ -209,11 +209,18 @@ func c161(c *an.Ctx, p *an.Prog) {
 				return
 			}
 			errT, adminT, userT := ret.Args[3], ret.Args[2], ret.Args[1]
-			ext := ""
+			nameT := s.T(cuf.Params[0])
+			ext, contradictory := "", false
 			for _, a := range s.Atoms {
-				if a.Op == "==" && a.A.IsCallTo("path/filepath.Ext") {
-					ext, _ = a.B.ConstString()
+				if n, e, ok := nameExtFact(a); ok && n.K == nameT.K {
+					if ext != "" && e != ext && plainExt(e) && plainExt(ext) {
+						contradictory = true // one name cannot end in two different extensions: no execution takes this path
+					}
+					ext = e
 				}
+			}
+			if contradictory {
+				return
 			}
 			if errT.IsConst("nil") {
 				if ext != ".admin" && ext != ".user" {
@@ -227,17 +234,7 @@ func c161(c *an.Ctx, p *an.Prog) {
 					bad = append(bad, "admin flag does not correspond to the .admin extension on path "+s.BlockPath())
 				}
 				// user = TrimSuffix(filename, same ext)
-				ok := false
-				if cc, _ := userT.CallOf(); cc != nil && cc.Aux == "strings.TrimSuffix" && cc.Args[0].K == s.T(cuf.Params[0]).K {
-					if e2, _ := cc.Args[1].ConstString(); e2 == ext {
-						ok = true
-					}
-					// the extension just computed from the same name (known to equal ext on this path)
-					if ec := cc.Args[1]; ec.IsCallTo("path/filepath.Ext") && ec.Op == "call" && ec.Args[0].K == cc.Args[0].K {
-						ok = true
-					}
-				}
-				if !ok {
+				if !nameMinusExt(userT, nameT, ext) {
 					bad = append(bad, "user name is not the file name minus its own extension on path "+s.BlockPath()+": "+userT.K)
 				}
 				// valid ⇔ grammar match of that user
@@ -331,6 +328,12 @@ func c162(c *an.Ctx, p *an.Prog) {
 				bad = append(bad, "returns true on path "+s.BlockPath()+" ["+s.FactsString()+"]")
 			}
 		})
+		// loop form ("every entry read is the directory .tmp"): acyclic enumeration leaves a loop only through its
+		// zero-iteration exit, so a `return true` after the loop has been decided above for len == 0 only. The rest is an
+		// induction over the scan, see scanOnlyWorkArea.
+		if hdrs := loopHeaders(ide); len(hdrs) > 0 {
+			bad = append(bad, scanOnlyWorkArea(ide, hdrs)...)
+		}
 		// ReadDir must ask for at least 2 entries (or all)
 		for _, ci := range an.CallsTo(ide, "(*os.File).ReadDir", "(*os.File).Readdirnames", "(*os.File).Readdir") {
 			if k, ok := ci.Common().Args[1].(*ssa.Const); ok {
@@ -341,6 +344,161 @@ func c162(c *an.Ctx, p *an.Prog) {
 		}
 		c.Check(len(bad) == 0 && nTrue > 0, "C16.2", fnKey(ide)+"|true-only-empty", p.Pos(ide.Pos()), "true only for 0 entries or the single directory entry '.tmp'", strings.Join(bad, "; "))
 	}
+}
+
+// scanOnlyWorkArea decides the loop form of isDirEmpty: `for _, e := range entries { if !(e.IsDir() && e.Name() == ".tmp")
+// { return false } }; return true`. Names in one directory listing are distinct, so "every entry is the directory .tmp"
+// is "no entry, or the single directory .tmp". Induction over the one loop, with an integer counter phi:
+//   - the counter starts at a constant c0 (-1: the range form, the element examined is counter+1; 0: the element
+//     examined is counter) and every iteration that goes round again hands counter+1 to the header;
+//   - an iteration goes round again only when the element it examined — element [examined index] of the listing the
+//     loop bound is the length of — is a directory and is named ".tmp";
+//   - true is returned from the header only (bound reached: examined index >= len(listing)), never from inside the body.
+func scanOnlyWorkArea(ide *ssa.Function, hdrs []*ssa.BasicBlock) (bad []string) {
+	if len(hdrs) != 1 {
+		return []string{fmt.Sprintf("UNRESOLVED: %d loops in isDirEmpty, expected at most one scan of the entries", len(hdrs))}
+	}
+	hdr := hdrs[0]
+	inLoop := map[*ssa.BasicBlock]bool{hdr: true}
+	for changed := true; changed; {
+		changed = false
+		for _, b := range ide.Blocks {
+			if inLoop[b] || !hdr.Dominates(b) {
+				continue
+			}
+			for _, sc := range b.Succs {
+				if inLoop[sc] {
+					inLoop[b] = true
+					changed = true
+				}
+			}
+		}
+	}
+	// the listing: result 0 of the directory read
+	isListing := func(t *an.Term) bool {
+		if t == nil {
+			return false
+		}
+		ex, ok := t.V.(*ssa.Extract)
+		if !ok || ex.Index != 0 {
+			return false
+		}
+		call, ok := ex.Tuple.(*ssa.Call)
+		if !ok {
+			return false
+		}
+		switch an.CalleeName(call) {
+		case "(*os.File).ReadDir", "(*os.File).Readdir", "os.ReadDir":
+			return true
+		}
+		return false
+	}
+	lenOfListing := func(t *an.Term) bool {
+		if t == nil {
+			return false
+		}
+		call, ok := t.V.(*ssa.Call)
+		if !ok || an.CalleeName(call) != "builtin len" || len(call.Call.Args) != 1 {
+			return false
+		}
+		ex, ok := call.Call.Args[0].(*ssa.Extract)
+		return ok && isListing(&an.Term{V: ex})
+	}
+	var lastWhy []string
+	for _, in := range hdr.Instrs {
+		ctr, ok := in.(*ssa.Phi)
+		if !ok {
+			break
+		}
+		if b, isB := ctr.Type().Underlying().(*types.Basic); !isB || b.Info()&types.IsInteger == 0 {
+			continue
+		}
+		var why []string
+		c0, okInit := int64(0), false
+		for j, pr := range hdr.Preds {
+			if inLoop[pr] {
+				continue
+			}
+			if k, isK := ctr.Edges[j].(*ssa.Const); isK && k.Value != nil && (k.Int64() == -1 || k.Int64() == 0) {
+				c0, okInit = k.Int64(), true
+			} else {
+				okInit = false
+				break
+			}
+		}
+		if !okInit {
+			lastWhy = []string{"the scan's counter does not start at the first entry"}
+			continue
+		}
+		nCont, nExit := 0, 0
+		res := an.EnumPathsTo(ide, hdr, nil, hdr, func(s *an.PathState) {
+			ck := s.T(ctr).K
+			examined := ck
+			if c0 == -1 {
+				examined = "(" + ck + " + c:1)"
+			}
+			if s.StopBlock != nil {
+				// goes round again
+				nCont++
+				if nx := s.PhiIn(ctr); nx == nil || nx.K != "("+ck+" + c:1)" {
+					why = append(why, "iteration "+s.BlockPath()+" does not advance the scan by one entry")
+				}
+				var dirOf, tmpOf *an.Term
+				for _, a := range s.Atoms {
+					if a.Op == "true" && a.A.Op == "call" && strings.HasSuffix(a.A.Aux, ".IsDir") && len(a.A.Args) == 1 {
+						dirOf = a.A.Args[0]
+					}
+					if a.Op == "==" && a.A.Op == "call" && strings.HasSuffix(a.A.Aux, ".Name") && len(a.A.Args) == 1 && a.B.IsConst(`".tmp"`) {
+						tmpOf = a.A.Args[0]
+					}
+				}
+				okEntry := false
+				if dirOf != nil && tmpOf != nil && dirOf.K == tmpOf.K {
+					if e := dirOf.StripConv(); e.Op == "load" && len(e.Args) == 1 && e.Args[0].Op == "indexaddr" && len(e.Args[0].Args) == 2 {
+						okEntry = isListing(e.Args[0].Args[0]) && e.Args[0].Args[1].K == examined
+					}
+				}
+				if !okEntry {
+					why = append(why, "iteration "+s.BlockPath()+" goes on to the next entry without having established that the entry at the scan position is the directory '.tmp' ["+s.FactsString()+"]")
+				}
+				return
+			}
+			ret := lastReturn(s)
+			if ret == nil || len(ret.Args) != 1 || ret.Args[0].IsConst("false") {
+				return
+			}
+			for _, b := range s.Blocks[1:] {
+				if inLoop[b] {
+					why = append(why, "returns true from inside the scan on path "+s.BlockPath()+": later entries are not looked at")
+					return
+				}
+			}
+			nExit++
+			okBound := false
+			for _, a := range s.Atoms {
+				if a.Op == ">=" && a.A.K == examined && lenOfListing(a.B) {
+					okBound = true
+				}
+			}
+			if !okBound {
+				why = append(why, "the scan ends on path "+s.BlockPath()+" without the position having reached the number of entries read ["+s.FactsString()+"]")
+			}
+		})
+		if !res.Complete {
+			why = append(why, "path limit")
+		}
+		if nCont == 0 || nExit == 0 {
+			why = append(why, "UNRESOLVED: the loop in isDirEmpty is not a scan of the entries that ends in `return true`")
+		}
+		if len(why) == 0 {
+			return nil
+		}
+		lastWhy = why
+	}
+	if lastWhy == nil {
+		lastWhy = []string{"UNRESOLVED: no integer scan position found in the loop of isDirEmpty"}
+	}
+	return lastWhy
 }
 
 func hasTrueCall(s *an.PathState, callee string) bool {
